@@ -20,18 +20,31 @@ REQUIRED_THEOREMS = [
     'C12_argsort_inverse', 'C12_time_reorder_composed', 'C12_time_reorder_composed_grad', 'C12_composed_grad',
     'C12_gaussian_grad', 'C12_lognormal_grad', 'C12_gaussianKDE_grad', 'C12_mixture_grad',
     'C12_lognormalKDE_grad', 'C12_all_missing', 'C12_score_val', 'C12_sort_times_keeps_shared_data',
-    'C12_sort_times_inplace_counterexample']
+    'C12_sort_times_inplace_counterexample',
+    'C12_nested_is_flat', 'C12_nested_n_times', 'C12_nested_time_reorder', 'C12_nested_time_reorder_grad',
+    'C12_nested_flatten_counterexample', 'C12_shift_invariant', 'C12_shift_invariant_filter',
+    'C12_scale_lognormal']
 RULE = ('random filter (5 classes; mixtures with 2-4 kernels), 1-6 measured individuals, 1-3 observables, '
         '1-5 times, missing patterns leaving >= 1 value per cell (or none missing), 2-12 simulated '
         'individuals (multiples of n_kernels, >= 2 per kernel), then sort_times histories, random '
         'splits into ComposedPopulationFilter (same and mixed kinds) with and without a deferred time '
-        'order; a case is non-trivial when the array has a missing value or T >= 2; distinct = distinct '
+        'order; nested compositions (depth <= 3, <= 7 times, sub-filters with different numbers of measured '
+        'individuals, every filter sorted with its own sort_times before it becomes a sub-filter); the same '
+        'object evaluated with a second number of simulated individuals and the first one again; arrays of large '
+        'magnitude and small spread (|value| / sd of a cell 1e3 - 1e7, offsets per cell of either sign; a common '
+        'power-of-two scale for the log-normal filters) with a tolerance of 100 eps |value| / sd; '
+        'a case is non-trivial when the array has a missing value or T >= 2; distinct = distinct '
         '(kind, shape, n_sim, masked?, composition, order class)')
 ASSUMPTIONS = ['simulated measurements are inputs (the mechanistic model is not involved)',
                'numpy semantics modelled: mean / var(ddof=1) / masked-array reductions skip masked entries / '
                'reshape in C order / fancy indexing along the last axis / argsort of distinct integers',
                'cells without any measurement and simulated cells with zero variance are outside the '
-               'property (the documented density does not exist there)']
+               'property (the documented density does not exist there)',
+               'floating point: the value at arrays of large magnitude m and spread sd has to agree with the '
+               'documented density to 100 eps m / sd (relative) - the error of a backward stable evaluation of '
+               'mean and variance; a formula that loses eps (m / sd)^2 (raw moments) is a violation',
+               'a filter is sorted (sort_times) before it is made a sub-filter of a composed filter; sorting a '
+               'sub-filter afterwards is not exercised']
 
 KINDS = ['G', 'GKDE', 'MIX', 'LN', 'LNKDE']
 NAMES = {'G': 'GaussianFilter', 'GKDE': 'GaussianKDEFilter', 'MIX': 'GaussianMixtureFilter',
@@ -199,6 +212,170 @@ def fd_checks(ctx, tag, f, sim, g, rng, inp, count=3):
 
 
 # ----------------------------------------------------------------------------------------
+# call histories: one filter object evaluated with DIFFERENT numbers of simulated individuals
+# ----------------------------------------------------------------------------------------
+def other_nsim(rng, Ks, n):
+    """a number of simulated individuals in 2..12 compatible with every mixture, different from `n`"""
+    base = 1
+    for K in Ks:
+        if K:
+            base = base * K // math.gcd(base, K)
+    cands = [c for c in range(2 * base if base > 1 else 2, 13, base) if c != n]
+    if not cands:
+        cands = [c for c in range(2 * base, 25, base) if c != n]
+    return int(rng.choice(cands)) if cands else None
+
+
+def call_history(ctx, name, f, docfn, fresh, sim, rng, inp, Ks):
+    """`f` has been evaluated at `sim` already.  It is now evaluated with another number of simulated
+    individuals and then again with the first one: every result has to be the documented value at the array
+    of THAT call (the estimators use the number of simulated individuals of the call), with the sensitivities of
+    a fresh object"""
+    n = sim.shape[0]
+    n2 = other_nsim(rng, Ks, n)
+    if n2 is None:
+        return
+    sim2 = rng.uniform(0.3, 4.0, (n2,) + sim.shape[1:])
+    seq = [('other number of simulated individuals', sim2), ('first number again', sim)]
+    first_sens = rng.random() < 0.5
+    for what, x in seq:
+        try:
+            with np.errstate(all='ignore'):
+                if first_sens:
+                    s1, g = f.compute_sensitivities(x.copy())
+                    v = f.compute_log_likelihood(x.copy())
+                else:
+                    v = f.compute_log_likelihood(x.copy())
+                    s1, g = f.compute_sensitivities(x.copy())
+            v, s1 = float(v), float(s1)
+            g = np.asarray(np.ma.filled(g, np.nan), float)
+            err = None
+        except Exception as e:  # noqa
+            v = s1 = g = None
+            err = core.errkind(e)
+        doc = docfn(x)
+        if not math.isfinite(doc):
+            continue
+        _, _, gf, ef = chi_eval(fresh(), x)
+        ok = err is None and core.close(v, doc) and core.close(s1, doc) and g.shape == x.shape and \
+            (gf is None or core.close(g, gf, 1e-8, 1e-10))
+        ctx.spec('C12.call_history/' + name, ok, dict(inp, n_sim_sequence=[n, n2, n], sim_second_call=sim2),
+                 {'call': what, 'n_sim': x.shape[0], 'chi': v, 'S1': s1, 'documented': doc, 'error': err})
+
+
+# ----------------------------------------------------------------------------------------
+# large offset / small spread: simulated values that agree in their leading digits
+# ----------------------------------------------------------------------------------------
+EPS = 2.220446049250313e-16
+
+
+def gen_offset_case(rng, kind, K):
+    """measurements and simulated values whose spread within a cell is small against their magnitude.
+    Returns (obs, sim, centred obs, centred sim, constant, per-value factor of the sensitivities, ratio) with
+    documented(obs, sim) = documented(centred) + constant: the Gaussian-type densities are invariant under a
+    common shift, the log-normal ones change by -log(a) per measurement under a common scale a (here a power of
+    two, so that centred and actual arrays are related exactly)"""
+    m = int(rng.integers(1, 6))
+    R = int(rng.integers(1, 3))
+    T = int(rng.integers(1, 4))
+    n = gen_nsim(rng, [K])
+    zo = rng.normal(0, 1, (m, R, T))
+    zs = rng.normal(0, 1, (n, R, T))
+    mask = np.zeros((m, R, T), bool)
+    if m >= 2 and rng.random() < 0.6:
+        mask = rng.random((m, R, T)) < 0.3
+        for r in range(R):
+            for j in range(T):
+                if mask[:, r, j].all():
+                    mask[int(rng.integers(m)), r, j] = False
+    if kind in ('LN', 'LNKDE'):
+        spread = 10 ** rng.uniform(-3, -1, (1, R, T))
+        oc = np.exp(spread * zo)
+        sc = np.exp(spread * zs)
+        k = rng.integers(300, 1000, (1, R, T)) * rng.choice([-1, 1], (1, R, T))
+        a = np.ldexp(1.0, k)
+        obs, sim = oc * a, sc * a                      # exact
+        ratio = float(np.max(np.abs(k) * math.log(2) / spread))
+        n_meas = (~mask).sum(axis=0, keepdims=True)
+        const = -float(np.sum(n_meas * k * math.log(2)))
+        gfac = 1.0 / a
+    else:
+        spread = 10 ** rng.uniform(-2, 1, (1, R, T))
+        ratio_c = 10 ** rng.uniform(4, 7, (1, R, T))
+        if R * T > 1 and rng.random() < 0.5:
+            ratio_c[0, int(rng.integers(R)), int(rng.integers(T))] = 1.0     # an ordinary cell among them
+        c = spread * ratio_c * rng.choice([-1, 1], (1, R, T))
+        obs, sim = c + spread * zo, c + spread * zs
+        oc, sc = obs - c, sim - c                      # exact (Sterbenz)
+        ratio = float(np.max(ratio_c))
+        const = 0.0
+        gfac = np.ones((1, R, T))
+    obs = obs.copy()
+    oc = oc.copy()
+    obs[mask] = np.nan
+    oc[mask] = np.nan
+    return obs, sim, oc, sc, const, gfac, ratio
+
+
+def magnitude_over_spread(kind, K, obs, sim):
+    """largest |value| / (empirical standard deviation of the simulated values the estimators use) over all
+    cells and kernel blocks (log-values for the log-normal filters): the condition number of the statistics"""
+    with np.errstate(all='ignore'):
+        x, o = (np.log(sim), np.log(obs)) if kind in ('LN', 'LNKDE') else (sim, obs)
+        n = x.shape[0]
+        nb = K if kind == 'MIX' else 1
+        p_ = n // nb
+        omax = np.nanmax(np.abs(o), axis=0)
+        worst = 0.0
+        for b in range(nb):
+            xb = x[b * p_:(b + 1) * p_]
+            sd = np.sqrt(np.sum((xb - np.sum(xb, axis=0) / p_) ** 2, axis=0) / (p_ - 1))
+            worst = max(worst, float(np.max(np.maximum(np.max(np.abs(xb), axis=0), omax) / sd)))
+    return worst
+
+
+def run_offset(ctx, chi, rng, i):
+    """the documented value at inputs of large magnitude and small spread.  A (backward) stable evaluation of
+    the estimators has an error of a few eps * |value| / spread in the statistics - that is the tolerance; a
+    formula that cancels (raw moments) loses eps * (|value| / spread)**2"""
+    kind, K = gen_kind(rng) if i >= 5 else (KINDS[i % 5], 2 + i % 3 if KINDS[i % 5] == 'MIX' else 0)
+    name = NAMES[kind]
+    obs, sim, oc, sc, const, gfac, ratio = gen_offset_case(rng, kind, K)
+    ratio = max(ratio, magnitude_over_spread(kind, K, obs, sim))
+    if not math.isfinite(ratio):
+        return
+    n_meas = int((~np.isnan(obs)).sum())
+    inp = {'filter': name, 'n_kernels': K, 'obs': obs, 'sim': sim, 'magnitude_over_spread': ratio}
+    ctx.case('%s/large-offset' % kind, nontrivial='%s/offset/%s/%d/1e%d' % (kind, obs.shape, sim.shape[0],
+                                                                            int(math.log10(ratio))), sample=inp)
+    f = make(chi, kind, K, obs.copy())
+    v, s1, g, err = chi_eval(f, sim)
+    doc = doc_value(kind, K, oc, sc, 'simulated') + const
+    mo_c = ctx.model('C12.filter', wire_filt(kind, K, oc), [], sc.tolist())
+    if not (math.isfinite(doc) and isinstance(mo_c[0], float) and math.isfinite(mo_c[0])):
+        return
+    ctx.agree('C12.offset.spec_twin', doc, mo_c[0] + const, inp, rtol=1e-8)
+    tol_v = 1e-9 + 100 * EPS * ratio
+    ctx.spec('C12.large_offset/documented/' + name,
+             err is None and core.close(v, doc, tol_v) and core.close(s1, doc, tol_v), inp,
+             {'chi': v, 'S1': s1, 'documented (evaluated on the centred arrays)': doc, 'error': err,
+              'tolerance (relative)': tol_v})
+    if err is not None:
+        return
+    # the model on the very same arrays (its estimators are the two-pass formulas)
+    mo = ctx.model('C12.filter', wire_filt(kind, K, obs), [], sim.tolist())
+    ctx.agree('C12.offset.value', v, mo[0], inp, rtol=tol_v)
+    # sensitivities: those of the centred problem (model), times d centred / d actual
+    gref = np.array(mo_c[1]) * gfac
+    scale = float(np.max(np.abs(gref))) if gref.size else 0.0
+    tol_g = 1e-8 + 300 * EPS * ratio
+    dev = float(np.max(np.abs(g - gref))) if g.shape == gref.shape else math.inf
+    ctx.spec('C12.large_offset/grad/' + name, g.shape == sim.shape and dev <= tol_g * scale, inp,
+             {'max deviation': dev, 'largest sensitivity': scale, 'tolerance (relative)': tol_g,
+              'n_measurements': n_meas})
+
+
+# ----------------------------------------------------------------------------------------
 # one simple filter: correspondence, documented value, invariances, gradient
 # ----------------------------------------------------------------------------------------
 def both_calls(f, shape):
@@ -303,6 +480,8 @@ def run_simple(ctx, chi, rng, kind, K, obs, sim, tag='gen'):
                 ctx.agree('C12.spec_twin_measured_bandwidth', docm, mo[3], inp, rtol=1e-8)
     fd_checks(ctx, 'C12.grad/' + name, f, sim, g, rng, inp)
     api_hygiene(ctx, name, f, sim, rng, inp, [K])
+    call_history(ctx, name, f, lambda x: doc_value(kind, K, obs, x, 'simulated'),
+                 lambda: make(chi, kind, K, obs.copy()), sim, rng, inp, [K])
     # NaN padding (appended and interleaved all-missing individuals) and permutation of individuals
     extra = int(rng.integers(1, 4))
     padded = np.concatenate([obs, np.full((extra, R, T), np.nan)], axis=0)
@@ -463,6 +642,22 @@ def run_composed(ctx, chi, rng, obs, sim_for, same_kind):
                  {'unsorted': v0, 'deferred order on consistently reordered input': v})
         fd_checks(ctx, 'C12.composed/grad', C, sim_in, g, rng, inp, count=3)
         api_hygiene(ctx, 'composed', C, sim_in, rng, inp, [K for _, K in kinds])
+
+        def doc_in(x):
+            xc = x
+            if ord_ is not None:
+                xc = np.empty_like(x)
+                xc[:, :, ord_] = x             # column j of the input holds time point ord_[j]
+            return sum(doc_value(k, K, obs[:, :, a:b], xc[:, :, a:b], 'simulated')
+                       for (k, K), (a, b) in zip(kinds, blocks))
+
+        def fresh():
+            D = chi.ComposedPopulationFilter([make(chi, k, K, obs[:, :, a:b].copy())
+                                              for (k, K), (a, b) in zip(kinds, blocks)])
+            if ord_ is not None:
+                D.sort_times(ord_)
+            return D
+        call_history(ctx, 'composed', C, doc_in, fresh, sim_in, rng, inp, [K for _, K in kinds])
         ctx.spec('C12.arguments_unchanged/observations/composed', np.array_equal(arr, obs, equal_nan=True), inp,
                  {'the caller\'s array after sort_times and evaluations': arr})
         if same_kind:
@@ -470,6 +665,181 @@ def run_composed(ctx, chi, rng, obs, sim_for, same_kind):
             vs, _, gs, es = chi_eval(make(chi, kind, K, obs.copy()), sim)
             ctx.spec('C12.split/' + NAMES[kind], es is None and core.close(v0, vs) and
                      core.close(g0, gs, 1e-8, 1e-10), inp, {'single filter': vs, 'composed': v0})
+
+
+# ----------------------------------------------------------------------------------------
+# nested compositions: composed filters (with their own deferred time order) as sub-filters
+# ----------------------------------------------------------------------------------------
+def gen_leaf(rng, R, tmax=3):
+    kind, K = gen_kind(rng)
+    m = int(rng.integers(1, 5))
+    t = int(rng.integers(1, max(1, min(3, tmax)) + 1))
+    obs = gen_obs(rng, m, R, t, rng.random() < 0.5)
+    srt = rng.permutation(t) if (t >= 2 and rng.random() < 0.3) else None
+    return {'kind': kind, 'K': K, 'obs': obs, 'sort': srt}
+
+
+def gen_node(rng, R, depth, budget):
+    """a ComposedPopulationFilter of 1-3 sub-filters (simple filters or composed filters) with at most `budget`
+    time points; `order` is the argument of its sort_times call (None: never called)"""
+    children = []
+    for _ in range(int(rng.integers(1, 4))):
+        left = budget - tree_T({'children': children})
+        if left <= 0:
+            break
+        if depth > 0 and left >= 2 and rng.random() < 0.45:
+            children.append(gen_node(rng, R, depth - 1, min(left, 4)))
+        else:
+            children.append(gen_leaf(rng, R, left))
+    node = {'children': children}
+    T = tree_T(node)
+    u = rng.random()
+    node['order'] = None if u < 0.15 else (np.arange(T) if (u < 0.25 or T < 2) else rng.permutation(T))
+    return node
+
+
+def is_leaf(node):
+    return 'kind' in node
+
+
+def tree_T(node):
+    return node['obs'].shape[2] if is_leaf(node) else sum(tree_T(c) for c in node['children'])
+
+
+def tree_Ks(node):
+    return [node['K']] if is_leaf(node) else [K for c in node['children'] for K in tree_Ks(c)]
+
+
+def tree_depth(node):
+    return 0 if is_leaf(node) else 1 + max(tree_depth(c) for c in node['children'])
+
+
+def leaf_obs(node):
+    """the measurements of a simple filter in the order of its time points after its own sort_times"""
+    return node['obs'] if node['sort'] is None else node['obs'][:, :, node['sort']]
+
+
+def tree_build(chi, node):
+    """bottom-up: every filter is sorted BEFORE it becomes a sub-filter"""
+    if is_leaf(node):
+        f = make(chi, node['kind'], node['K'], node['obs'].copy())
+        if node['sort'] is not None:
+            f.sort_times(np.array(node['sort']))
+        return f
+    C = chi.ComposedPopulationFilter([tree_build(chi, c) for c in node['children']])
+    if node['order'] is not None:
+        C.sort_times(np.array(node['order']))
+    return C
+
+
+def tree_ref(chi, node, sim, want_grad=True):
+    """documented value of a (nested) composition and the sensitivities assembled from FRESH simple filters.
+    Column j of `sim` holds the simulated measurements of the node's time point order[j] (its time points are
+    the concatenated time points of its sub-filters)"""
+    if is_leaf(node):
+        o = leaf_obs(node)
+        val = doc_value(node['kind'], node['K'], o, sim, 'simulated')
+        g = chi_eval(make(chi, node['kind'], node['K'], o.copy()), sim)[2] if want_grad else None
+        return val, g
+    canon = sim
+    if node['order'] is not None:
+        canon = np.empty_like(sim)
+        canon[:, :, node['order']] = sim
+    tot, off, gs = 0.0, 0, []
+    for c in node['children']:
+        t = tree_T(c)
+        v, g = tree_ref(chi, c, canon[:, :, off:off + t], want_grad)
+        tot += v
+        gs.append(g)
+        off += t
+    if not want_grad or any(g is None for g in gs):
+        return tot, None
+    gc = np.concatenate(gs, axis=2)
+    return tot, (gc if node['order'] is None else gc[:, :, node['order']])
+
+
+def tree_wire(node):
+    if is_leaf(node):
+        return ['L', wire_filt(node['kind'], node['K'], node['obs']),
+                [] if node['sort'] is None else [[int(t) for t in node['sort']]]]
+    return ['N', [tree_wire(c) for c in node['children']],
+            None if node['order'] is None else [int(t) for t in node['order']]]
+
+
+def tree_show(node):
+    if is_leaf(node):
+        return {'filter': NAMES[node['kind']], 'n_kernels': node['K'], 'obs': node['obs'], 'sort_times': node['sort']}
+    return {'composed': [tree_show(c) for c in node['children']], 'sort_times': node['order']}
+
+
+def run_nested(ctx, chi, rng, i):
+    R = int(rng.integers(1, 3))
+    root = gen_node(rng, R, 2, 6)
+    inner = [k for k, c in enumerate(root['children']) if not is_leaf(c)]
+    if not inner:
+        # at least one sub-filter is a composed filter, with an order of its own where it has >= 2 times
+        k = int(rng.integers(len(root['children'])))
+        sub = gen_node(rng, R, 1, 3)
+        Ts = tree_T(sub)
+        if Ts >= 2 and (sub['order'] is None or perm_class(sub['order']) == 'identity'):
+            sub['order'] = np.roll(np.arange(Ts), int(rng.integers(1, Ts)))
+        root['children'][k] = sub
+        root['order'] = None if rng.random() < 0.4 else rng.permutation(tree_T(root))
+        inner = [k]
+    T = tree_T(root)
+    Ks = tree_Ks(root)
+    n = int(rng.choice([c for c in range(2, 13) if all(not K or (c % K == 0 and c // K >= 2) for K in Ks)][:4]))
+    sim = rng.uniform(0.3, 4.0, (n, R, T)) * rng.uniform(0.5, 2.0, (1, 1, T))
+    inp = {'tree': tree_show(root), 'sim': sim}
+    sorted_inner = any(root['children'][k]['order'] is not None and
+                       perm_class(root['children'][k]['order']) != 'identity' for k in inner)
+    ctx.case('nested/depth-%d/%s/outer-%s' % (tree_depth(root), 'inner-sorted' if sorted_inner else 'inner-unsorted',
+                                              'none' if root['order'] is None else perm_class(root['order'])),
+             nontrivial='nested/%s/%d' % (json.dumps(jsonable_tree(root)), n), sample=None)
+    # the inner composed filter on its own, before it is nested
+    k0 = inner[0]
+    sub = root['children'][k0]
+    subf = tree_build(chi, sub)
+    simsub = rng.uniform(0.3, 4.0, (n, R, tree_T(sub)))
+    vs0, _, gs0, es0 = chi_eval(subf, simsub)
+    subs = [subf if k == k0 else tree_build(chi, c) for k, c in enumerate(root['children'])]
+    C = chi.ComposedPopulationFilter(subs)
+    if root['order'] is not None:
+        C.sort_times(np.array(root['order']))
+    v, s1, g, err = chi_eval(C, sim)
+    mo = ctx.model('C12.nested', tree_wire(root), sim.tolist())
+    if err is not None:
+        ctx.agree('C12.nested.error', err, mo[0], inp)
+        ctx.spec('C12.nested/evaluates', False, inp, {'error': err})
+        return
+    ctx.agree('C12.nested.value', v, mo[0], inp)
+    if isinstance(mo[0], float) and math.isfinite(mo[0]):
+        ctx.agree('C12.nested.grad', g, np.array(mo[1]), inp, rtol=1e-8, atol=1e-10)
+    ctx.agree('C12.nested.n_times', int(C.n_times()), mo[2], inp)
+    ctx.spec('C12.nested/n_times', int(C.n_times()) == T and int(C.n_observables()) == R, inp,
+             {'n_times': int(C.n_times()), 'time points of the sub-filters': T})
+    doc, gref = tree_ref(chi, root, sim)
+    if not (math.isfinite(doc) and math.isfinite(v)):
+        return
+    ctx.spec('C12.nested/documented_sum', core.close(v, doc), inp, {'chi': v, 'documented': doc})
+    ctx.spec('C12.nested/S1_value', core.close(s1, doc), inp, {'S1': s1, 'documented': doc})
+    ctx.spec('C12.nested/grad', g.shape == sim.shape and gref is not None and core.close(g, gref, 1e-8, 1e-10), inp,
+             {'chi': g, 'sensitivities of fresh simple filters at the columns they model': gref})
+    fd_checks(ctx, 'C12.nested/grad_fd', C, sim, g, rng, inp, count=2)
+    # the inner filter still works on its own, unchanged by having been nested and evaluated
+    vs1, _, gs1, es1 = chi_eval(subf, simsub)
+    docsub = tree_ref(chi, sub, simsub, want_grad=False)[0]
+    ctx.spec('C12.nested/inner_on_its_own', es0 is None and es1 is None and core.close(vs0, vs1, 1e-12) and
+             core.close(gs0, gs1, 1e-12) and (not math.isfinite(docsub) or core.close(vs0, docsub)), inp,
+             {'before nesting': vs0, 'after': vs1, 'documented': docsub})
+    call_history(ctx, 'nested', C, lambda x: tree_ref(chi, root, x, want_grad=False)[0],
+                 lambda: tree_build(chi, root), sim, rng, inp, Ks)
+
+
+def jsonable_tree(node):
+    if is_leaf(node):
+        return [node['kind'], node['K'], list(node['obs'].shape), node['sort'] is not None]
+    return [[jsonable_tree(c) for c in node['children']], None if node['order'] is None else perm_class(node['order'])]
 
 
 def composed_errors(ctx, chi, rng):
@@ -589,6 +959,10 @@ def run(ctx):
         if rng.random() < 0.25:
             sim = sim * rng.uniform(0.2, 3.0, (1, R, T))
         ctx.guard(simple_case, ctx, chi, rng, kind, K, obs, sim, i)
+    for i in range(40 if quick else 400):
+        ctx.guard(run_offset, ctx, chi, ctx.sub_rng(700000 + i), i)
+    for i in range(30 if quick else 250):
+        ctx.guard(run_nested, ctx, chi, ctx.sub_rng(800000 + i), i)
     for i in range(n_comp):
         rng = ctx.sub_rng(500000 + i)
         m = int(rng.integers(1, 7))
@@ -635,6 +1009,20 @@ def replay(ctx, data):
             o = np.array(inp['order'])
             C.sort_times(o)
             print('chi composed value (deferred order, reordered input)', chi_eval(C, sim[:, :, o])[0])
+    elif 'tree' in inp:
+        def node_of(t):
+            if 'filter' in t:
+                kind = [k for k, v in NAMES.items() if v == t['filter']][0]
+                return {'kind': kind, 'K': t.get('n_kernels') or 0, 'obs': arr(t['obs']),
+                        'sort': None if t.get('sort_times') is None else np.array(t['sort_times'])}
+            return {'children': [node_of(c) for c in t['composed']],
+                    'order': None if t.get('sort_times') is None else np.array(t['sort_times'])}
+        root = node_of(inp['tree'])
+        sim = arr(inp['sim'])
+        v, s1, g, err = chi_eval(tree_build(chi, root), sim)
+        print('chi nested value', v, 'S1', s1, 'error', err)
+        print('documented sum', tree_ref(chi, root, sim, want_grad=False)[0])
+        print('model', ctx.model('C12.nested', tree_wire(root), sim.tolist())[:1])
     if ctx.lean is not None:
         ctx.lean.close()
     return 0
